@@ -165,6 +165,18 @@ fn ambient_owner_req() -> i64 {
     }
 }
 
+/// the registry maps the address of a root owner to its request; once the root is cleaned up the
+/// address may be reused by any later owner, so the entry has to go
+fn forget_root_on_cleanup(idx: usize) {
+    on_cleanup(move || {
+        let _ = W.try_with(|w| {
+            if let Ok(mut w) = w.try_borrow_mut() {
+                w.roots.retain(|(_, q)| *q != idx);
+            }
+        });
+    });
+}
+
 #[derive(Clone)]
 struct Env {
     req: usize,
@@ -608,6 +620,7 @@ impl Req {
             if let Some(o) = Owner::current() {
                 W.with(|w| w.borrow_mut().roots.push((o.debug_id(), idx)));
             }
+            forget_root_on_cleanup(idx);
             provide_context(Tag0(100 + idx as i64));
             if let Some(sc) = Owner::current_shared_context() {
                 sc.set_is_hydrating(true);
@@ -621,11 +634,13 @@ impl Req {
             1 if split => {
                 let (owner, stream) = real::build_response_real(app_fn, additional_context, sbld);
                 W.with(|w| w.borrow_mut().roots.push((owner.debug_id(), idx)));
+                owner.with(|| forget_root_on_cleanup(idx));
                 Box::pin(from_app_rest(owner, stream))
             }
             _ if split => {
                 let (owner, stream) = build_response_equiv(app_fn, additional_context, sbld, o.pipeline != 2);
                 W.with(|w| w.borrow_mut().roots.push((owner.debug_id(), idx)));
+                owner.with(|| forget_root_on_cleanup(idx));
                 Box::pin(from_app_rest(owner, stream))
             }
             #[cfg(feature = "sandboxed")]
@@ -1056,7 +1071,8 @@ fn cleanups_of(out: &RunOut, r: usize) -> Sexp {
 }
 
 /// observation = (abstract (ambient ...) ((events) (cleanups)) per request)
-///               (concrete per request: (html solo_html finished solo_finished events_equal cleanups_equal skipped))
+///               (concrete per request: ((equal len solo_len window solo_window) finished solo_finished
+///                events solo_events cleanups solo_cleanups skipped))
 fn run_case(c: &Sexp) -> Sexp {
     let obs = c.at(0).num();
     let ooo = c.at(2).num() != 0;
@@ -1099,9 +1115,24 @@ fn run_case(c: &Sexp) -> Sexp {
             .cloned()
             .collect();
         let solo = run_world(&progs, &[r], &o, Plan::Replay(&mine));
+        // the two responses are compared here; only the verdict, the lengths and a window around
+        // the first difference are printed (two full responses per request and case would make
+        // the observation stream of a thorough run several gigabytes)
+        let (a, b) = (out.html[r - 1].as_bytes(), solo.html[r - 1].as_bytes());
+        let mut i = 0;
+        while i < a.len() && i < b.len() && a[i] == b[i] {
+            i += 1;
+        }
+        let eq = a == b;
+        let win = |x: &[u8]| {
+            if eq {
+                Lst(vec![])
+            } else {
+                Sexp::from_bytes(&x[i.saturating_sub(30).min(x.len())..(i + 60).min(x.len())])
+            }
+        };
         conc.push(Lst(vec![
-            Sexp::from_str(&out.html[r - 1]),
-            Sexp::from_str(&solo.html[r - 1]),
+            Lst(vec![Sexp::bool(eq), Num(a.len() as i64), Num(b.len() as i64), win(a), win(b)]),
             Sexp::bool(out.finished[r - 1]),
             Sexp::bool(solo.finished[r - 1]),
             events_of(&out, r),
